@@ -6,8 +6,12 @@ of boolean decisions; after a path ends, the deepest decision whose other side i
 unexplored is flipped and the scenario function is executed again with that prefix.
 """
 import os
+import subprocess
 import time
 import z3
+
+XCHECK_BIN = "/usr/bin/z3"  # z3 4.8.12 (Debian); the exploration uses the z3-solver 5.1 wheel
+XCHECK_TIMEOUT_S = 20
 
 W = 96  # width of every SymInt bit-vector; magnitudes are tracked so that wrap-around never happens silently
 _MAXMAG = 1 << (W - 2)
@@ -96,6 +100,10 @@ class Stats:
         self.infeasible = 0
         self.budget = 0
         self.checks = 0
+        self.xcheck_agree = 0
+        self.xcheck_unknown = 0
+        self.xcheck_disagree = 0
+        self.xcheck_s = 0.0
 
     def as_dict(self):
         return dict(self.__dict__)
@@ -326,7 +334,43 @@ class Ctx:
             finally:
                 self._violation_constraint = None
             return False
+        self._cross_check(z3.Not(t), label)
         return True
+
+    def _cross_check(self, negated, label):
+        """Second opinion on an 'assertion holds on this path' verdict (unsat): the same query, printed as SMT-LIB2, is decided by the
+        independent z3 4.8.12 binary (/usr/bin/z3; another code base than the 5.1 library used for exploration).  Sampled: the first
+        TLV_XCHECK assertion queries per label and configuration.  'sat' from the second solver, or an '(error' line, makes the
+        configuration inconclusive; its timeout / unknown is counted and claims nothing."""
+        n = int(os.environ.get("TLV_XCHECK", "2"))
+        done = self.notes.setdefault("_xcheck_done", {})
+        if n <= 0 or done.get(label, 0) >= n or not os.path.exists(XCHECK_BIN):
+            return
+        done[label] = done.get(label, 0) + 1
+        t0 = time.time()
+        try:
+            s2 = z3.Solver()
+            s2.add(self.solver.assertions())
+            s2.add(negated)
+            text = s2.to_smt2()
+            try:
+                out = subprocess.run([XCHECK_BIN, "-in", "-T:%d" % XCHECK_TIMEOUT_S], input=text, capture_output=True, text=True,
+                                     timeout=XCHECK_TIMEOUT_S + 10).stdout
+            except subprocess.TimeoutExpired:
+                out = "timeout"
+        finally:
+            self.stats.xcheck_s += time.time() - t0
+        lines = [l.strip() for l in out.splitlines() if l.strip()]
+        if any(l.startswith("(error") for l in lines) or "sat" in lines:
+            self.stats.xcheck_disagree += 1
+        if any(l.startswith("(error") for l in lines):
+            raise SolverUnknown("second solver (z3 4.8.12) rejected the query for %s: %s" % (label, lines[0][:200]))
+        if "sat" in lines:
+            raise SolverUnknown("solvers disagree on assertion %s: z3 5.1 unsat, z3 4.8.12 sat" % label)
+        if "unsat" in lines:
+            self.stats.xcheck_agree += 1
+        else:
+            self.stats.xcheck_unknown += 1
 
     def fail(self, label, detail=None):
         return self.check(False, label, detail)
